@@ -305,7 +305,7 @@ func TestC26(t *testing.T) {
 		}
 	}
 
-	n := stats.N(3000, 20000)
+	n := stats.N(10000, 40000)
 	st.Set("requested_checks", n)
 	stats.Check(t, n, 26, func(rt *rapid.T) {
 		p := GenProgram(rt, Opts{MaxStmts: 3, MaxDepth: 3, BigAmount: true, Common: true})
